@@ -245,6 +245,7 @@ func runC05(tier string, seed uint64, o *Out) error {
 	c05Concurrent(tier, NewRNG(seed*1000003+515), o)
 	c05Paths(tier, seed, o)
 	c05Output(tier, seed, o)
+	c05Selected(tier, seed, o)
 	return nil
 }
 
